@@ -5,7 +5,7 @@ import random
 
 from .. import gen, harness, mon, ref, runfam
 from ..core import Check, derive_seed
-from ..model import Expr, In, Ref, Program, Step, InputSchema
+from ..model import Expr, In, Ref, Program, Step, InputSchema, OneOf
 
 
 def gen_type(rng, depth, objects):
@@ -226,7 +226,7 @@ def run(check):
                   "references to shared objects, optional fields with and without defaults) x one valid document x every single-point invalidation (missing required, "
                   "wrong type per type, out of range, wrong enum member, unknown field at every nesting level, explicit null for present and omitted fields, documents "
                   "that are not objects) plus input documents written as YAML text (block scalars with every chomping mode, quoting, flow style); each document is run through Execute (Go values) and "
-                  "through engine.Workflow.Run (YAML bytes); oracles: invalid => error and no deployment for execution (deploy counter), valid => the whole input seen by "
+                  "through engine.Workflow.Run (YAML bytes); also loops fed from an input list and input objects handed over as one-of options, with the input referred to again later, and sequences of trees through one step registry whose sub-workflow files share a name but differ in input schema (result in the sequence = result alone); oracles: invalid => error and no deployment for execution (deploy counter), valid => the whole input seen by "
                   "two different steps and the workflow output equal the reference normalisation (typed values, defaults filled) and equal each other; "
                   "distinct = (schema, invalidation kind, entry point)")
     check.assumptions = ["documents are either clearly valid or clearly invalid with respect to the declared schema (no convertible border cases such as \"5\" for an integer)"]
@@ -314,8 +314,85 @@ def run(check):
         else:
             case = {"id": cid, "mode": "engine", "files": lprog.files(), "scripts": lscripts, "runs": [], "extra": {"engine": {"input_yaml": json.dumps(ldoc)}}}
         items.append((case, {"schema": -2, "kind": "valid", "entry": entry, "valid": True, "expected": ref.normalise_input(lsch, ldoc), "doc": ldoc}))
+    # whole objects of the input handed to a step as the chosen option of a one-of (the engine adds the discriminator to what it
+    # hands over); the same objects are referred to again later in the run: they must still be the normalised input
+    for j in range(check.pick(8, 40)):
+        rng = random.Random(derive_seed(check.seed, "c19-oneof", j))
+        osch = InputSchema({"target": {"type": ("object", "Target", {"host": {"type": "string"}, "port": {"type": "integer", "required": False, "default": 22}})},
+                            "extra": {"type": ("map", "string", "string"), "required": False}, "name": {"type": "string", "required": False, "default": "dflt"}})
+        opts = {"ssh": Expr(In("target"))}
+        if j % 3 == 1:
+            opts = {"whole": Expr(In())}
+        first = gen.plugin_step("c", "lit", extra_input={"a": OneOf("kind", opts) if j % 3 != 2 else {"inner": [OneOf("kind", opts)]}})
+        e1 = gen.plugin_step("e1", "lit", extra_input={"a": Expr(In())}, wait_for=Expr(Ref("c", "outputs", "success")))
+        e2 = gen.plugin_step("e2", "lit", extra_input={"a": Expr(In())})
+        steps = [first, e1, e2]
+        rng.shuffle(steps)
+        oprog = Program(steps, {"success": {"all": Expr(In()), "c": Expr(Ref("c", "outputs", "success", "a")), "e1": Expr(Ref("e1", "outputs", "success", "a")), "e2": Expr(Ref("e2", "outputs", "success"))}}, osch)
+        odoc = {"target": {"host": "h%d" % j}}
+        if j % 2:
+            odoc["extra"] = {"k": "v"}
+        for entry in ("execute", "engine"):
+            cid = "c19-%05d" % idx
+            idx += 1
+            oscripts = gen.make_scripts(oprog.steps, {})
+            if entry == "execute":
+                case = {"id": cid, "files": oprog.files(), "scripts": oscripts, "runs": [{"input": odoc}]}
+            else:
+                case = {"id": cid, "mode": "engine", "files": oprog.files(), "scripts": oscripts, "runs": [], "extra": {"engine": {"input_yaml": json.dumps(odoc)}}}
+            items.append((case, {"schema": -3, "kind": "valid", "entry": entry, "valid": True, "expected": ref.normalise_input(osch, odoc), "doc": odoc}))
+    # one step registry (one engine instance) used for several workflow trees whose sub-workflow file has the same name but
+    # another input schema: the items of each tree's loop are normalised by that tree's own sub-workflow schema. Each tree is
+    # also run alone; its result in the sequence must be the same
+    seq_cases = []
+    def tree(variant):
+        props = {"tag": {"type": "string"}}
+        outs = {"t": gen.tagref("w0")}
+        if variant == "default-added":
+            props["note"] = {"type": "string", "required": False, "default": "n/a"}
+            outs["note"] = Expr(In("note"))
+        elif variant == "other-default":
+            props["note"] = {"type": "string", "required": False, "default": "other"}
+            outs["note"] = Expr(In("note"))
+        elif variant == "narrower":
+            props["tag"] = {"type": ("string", {"min": None, "max": 2})}
+        sub = Program([gen.plugin_step("w0", Expr(In("tag")), src="sub_w0")], {"success": outs}, InputSchema(props, root="Item"), name="sub.yaml")
+        loop = Step("loop", "foreach", sub=sub, items=Expr(In("items")))
+        psch = InputSchema({"items": {"type": ("list", ("object", "Item", {"tag": {"type": "string"}}))}})
+        return Program([loop], {"success": {"d": Expr(Ref("loop", "outputs", "success", "data"))}, "failed": {"e": Expr(Ref("loop", "failed", "error"))}}, psch)
+    VARIANTS = ["plain", "default-added", "other-default", "narrower"]
+    sdoc = {"items": [{"tag": "i0"}, {"tag": "long-tag"}]}
+    for a in VARIANTS:
+        seq_cases.append(("alone", (a,), {"id": "c19-s%03d" % len(seq_cases), "mode": "seq", "files": {}, "scripts": gen.make_scripts(tree(a).steps, {}), "runs": [],
+                                          "extra": {"sequence": [{"files": tree(a).files(), "input": sdoc}]}, "no_events": True}))
+    for a in VARIANTS:
+        for b in VARIANTS:
+            if a != b:
+                for order in ((a, b), (a, b, a)):
+                    seq_cases.append(("sequence", order, {"id": "c19-s%03d" % len(seq_cases), "mode": "seq", "files": {}, "scripts": gen.make_scripts(tree(a).steps, {}), "runs": [],
+                                                          "extra": {"sequence": [{"files": tree(v).files(), "input": sdoc} for v in order]}, "no_events": True}))
     with harness.Runner() as rn:
         out = rn.run_cases([c for c, _m in items], per_case_timeout=60)
+        sout = rn.run_cases([c for _k, _o, c in seq_cases], per_case_timeout=60)
+    alone = {}
+    for kind, order, case in seq_cases:
+        o = sout.get(case["id"], {})
+        check.count()
+        runs = (o.get("result") or {}).get("runs") or []
+        if "death" in o or len(runs) != len(order):
+            check.inconclusive_case(case["id"], str(o.get("death", {}).get("key") or "sequence incomplete"))
+            continue
+        got = [(r.get("out_id"), ref.denum(r.get("data")), bool(r.get("err"))) for r in runs]
+        if kind == "alone":
+            alone[order[0]] = got[0]
+            if order[0] == "default-added" and got[0][0] != "success":
+                check.fail_broken("sub-workflow with a defaulted field did not run alone: %r" % (runs[0],))
+            continue
+        for pos, v in enumerate(order):
+            if v in alone and got[pos] != alone[v]:
+                check.report("input@item-normalised-by-another-tree's-schema", "trees %s through one step registry: the tree at position %d (sub-workflow input: %s) returned %r, alone it returns %r" % (
+                    list(order), pos, v, got[pos], alone[v]), {"case": case})
+        check.nontrivial("seq|%s" % "|".join(order))
     stats = {"valid_runs": 0, "invalid_runs": 0, "invalid_refused": 0, "kinds": {}, "rejected_programs": 0}
     for case, m in items:
         o = out.get(case["id"], {})
